@@ -1754,6 +1754,12 @@ static void bufr_put_desc_value ( BUFR_Message *bufr, BufrDescriptor *bd )
                   bufr_print_debug( errmsg );
                   }
                }
+            else
+               {
+               /* any other storage type (e.g. INT64 when the reference needs more than 32 bits), as bufr_value2bits does */
+               dval = bufr_value_get_double( bd->value );
+               ui64val = bufr_cvt_dval_to_i64( bd->descriptor, &(bd->encoding), dval );
+               }
             }
          else
             {
